@@ -612,6 +612,24 @@ var specials = []Case{
 	{Stream: "special", Label: "letter case: function defined in lower case, return-from its name in upper case", Src: "(defun c07-g (p) (vtr 2) (return-from C07-G 9) (vtr 3))\n(list (vtr 1) (c07-g 1) (vtr 4))"},
 	{Stream: "special", Label: "letter case: go to a tag written in another case", Src: "(tagbody (vtr 1) (go TB) (vtr 2) tb (vtr 3))"},
 	{Stream: "special", Label: "letter case: go to a tag written in another case inside dotimes", Src: "(dotimes (i 2) (vtr 1) (go tb) (vtr 2) TB (vtr 3))"},
+	{Stream: "special", Label: "go to an integer tag of a dolist body", Src: "(dolist (v '(1 2)) (vtr 1) (go 10) (vtr 2) 10 (vtr 3))"},
+	{Stream: "special", Label: "integer tag of a dolist body shadows the tag of an outer tagbody", Src: "(tagbody (dolist (v '(1 2)) (vtr 1) (go 10) (vtr 2) 10 (vtr 3)) (vtr 4) 10 (vtr 5))"},
+	{Stream: "special", Label: "go to a symbol tag of a dolist body", Src: "(dolist (v '(1 2)) (vtr 1) (go tb) (vtr 2) tb (vtr 3))"},
+	{Stream: "special", Label: "symbol tag of a dolist body shadows the tag of an outer tagbody", Src: "(tagbody (dolist (v '(1 2)) (vtr 1) (go tb) (vtr 2) tb (vtr 3)) (vtr 4) tb (vtr 5))"},
+	{Stream: "special", Label: "go to an integer tag of a dotimes body", Src: "(dotimes (i 2) (vtr 1) (go 10) (vtr 2) 10 (vtr 3))"},
+	{Stream: "special", Label: "integer tag of a dotimes body shadows the tag of an outer tagbody", Src: "(tagbody (dotimes (i 2) (vtr 1) (go 10) (vtr 2) 10 (vtr 3)) (vtr 4) 10 (vtr 5))"},
+	{Stream: "special", Label: "go to a symbol tag of a dotimes body", Src: "(dotimes (i 2) (vtr 1) (go tb) (vtr 2) tb (vtr 3))"},
+	{Stream: "special", Label: "symbol tag of a dotimes body shadows the tag of an outer tagbody", Src: "(tagbody (dotimes (i 2) (vtr 1) (go tb) (vtr 2) tb (vtr 3)) (vtr 4) tb (vtr 5))"},
+	{Stream: "special", Label: "go to an integer tag of a do body", Src: "(do ((i 0 (1+ i))) ((= i 2)) (vtr 1) (go 10) (vtr 2) 10 (vtr 3))"},
+	{Stream: "special", Label: "integer tag of a do body shadows the tag of an outer tagbody", Src: "(tagbody (do ((i 0 (1+ i))) ((= i 2)) (vtr 1) (go 10) (vtr 2) 10 (vtr 3)) (vtr 4) 10 (vtr 5))"},
+	{Stream: "special", Label: "go to a symbol tag of a do body", Src: "(do ((i 0 (1+ i))) ((= i 2)) (vtr 1) (go tb) (vtr 2) tb (vtr 3))"},
+	{Stream: "special", Label: "symbol tag of a do body shadows the tag of an outer tagbody", Src: "(tagbody (do ((i 0 (1+ i))) ((= i 2)) (vtr 1) (go tb) (vtr 2) tb (vtr 3)) (vtr 4) tb (vtr 5))"},
+	{Stream: "special", Label: "go to an integer tag of a do* body", Src: "(do* ((i 0 (1+ i))) ((= i 2)) (vtr 1) (go 10) (vtr 2) 10 (vtr 3))"},
+	{Stream: "special", Label: "integer tag of a do* body shadows the tag of an outer tagbody", Src: "(tagbody (do* ((i 0 (1+ i))) ((= i 2)) (vtr 1) (go 10) (vtr 2) 10 (vtr 3)) (vtr 4) 10 (vtr 5))"},
+	{Stream: "special", Label: "go to a symbol tag of a do* body", Src: "(do* ((i 0 (1+ i))) ((= i 2)) (vtr 1) (go tb) (vtr 2) tb (vtr 3))"},
+	{Stream: "special", Label: "symbol tag of a do* body shadows the tag of an outer tagbody", Src: "(tagbody (do* ((i 0 (1+ i))) ((= i 2)) (vtr 1) (go tb) (vtr 2) tb (vtr 3)) (vtr 4) tb (vtr 5))"},
+	{Stream: "special", Label: "go to an integer tag of a prog body", Src: "(prog ((a 1)) (vtr 1) (go 10) (vtr 2) 10 (vtr 3))"},
+	{Stream: "special", Label: "backward go to an integer tag of a dolist body", Src: "(let ((n 0)) (dolist (v '(1 2)) (vtr 1) 10 (setq n (1+ n)) (vtr 2) (if (< n 2) (go 10)) (vtr 3)))"},
 	{Stream: "special", Label: "stream closed on return-from", Src: "(block a (let ((u 1)) (with-open-file (f1 \"c07-in.txt\" :direction :input) (vreg 1 f1) (vtr 1) (return-from a 5))) (vtr 2))"},
 }
 
